@@ -90,6 +90,8 @@ def _pre_hist(o0, o1, o2, o3, o4, o5, with_lock):
             ok = ok and o == 0
     if P("o0") is not None:
         ok = ok and o0 == P("o0")
+    if P("o1") is not None:
+        ok = ok and o1 == P("o1")
     return ok
 
 
@@ -322,7 +324,7 @@ def _grid():
 
 GRID = {
     "h_conc": _grid,
-    "h_hist": lambda: [(a, b, c, d, 0, 0, w) for a in range(8) for b in range(8) for c in range(8) for d in (0, 2, 3) for w in (False, True) if P("o0") in (None, a)],
+    "h_hist": lambda: [(a, b, c, d, 0, 0, w) for a in range(8) for b in range(8) for c in range(8) for d in (0, 2, 3) for w in (False, True) if P("o0") in (None, a) and P("o1") in (None, b)],
 }
 
 
@@ -335,7 +337,11 @@ def jobs(tier):
         J.append({"module": "c12", "fn": fn, "part": part, "timeout": T})
 
     for o0 in range(8):
-        add("h_hist", L=(4 if q else 5), o0=o0)
+        if q:
+            add("h_hist", L=4, o0=o0)
+        else:
+            for o1 in range(8):
+                add("h_hist", L=5, o0=o0, o1=o1)
     add("h_hist", L=3, aw_value=True)
     add("h_hist", L=3, falsy=True)
     add("h_hist", L=3, frozen=True)
